@@ -412,48 +412,3 @@ fn cf_relational_diff() {
     kani::cover!(!r.oi_di, "difference shared edge InOut");
 }
 
-/// C06 (ii): self-operation and operand symmetry at pair level.
-#[kani::proof]
-#[kani::unwind(3)]
-fn cf_selfop_symmetry() {
-    let (s0, c0): (bool, bool) = (kani::any(), kani::any());
-    let op = any_op();
-    let mut kept = [false; 2];
-    let mut k = 0;
-    while k < 2 {
-        // k = 0: lower twin is subject; k = 1: operands swapped (world swapped accordingly)
-        let s_subject = k == 0;
-        let (sw, cw) = if k == 0 { (s0, c0) } else { (c0, s0) };
-        let far = seg_c(c(-2., -2.), c(5., -2.), true, 9);
-        let (pp, pp_r, _pir) = make_prev(false, true, sw, cw, &far.l);
-        let s = seg_c(c(1., 1.), c(3., 1.), s_subject, 2);
-        let cc = seg_c(c(1., 1.), c(3., 1.), !s_subject, 3);
-        compute_fields(&s.l, Some(&pp), op);
-        compute_fields(&cc.l, Some(&s.l), op);
-        cc.l.set_edge_type(EdgeType::NonContributing);
-        if s.l.is_in_out() == cc.l.is_in_out() {
-            s.l.set_edge_type(EdgeType::SameTransition)
-        } else {
-            s.l.set_edge_type(EdgeType::DifferentTransition)
-        }
-        compute_fields(&s.l, Some(&pp), op);
-        compute_fields(&cc.l, Some(&s.l), op);
-        kept[k] = s.l.is_in_result() || cc.l.is_in_result();
-        assert!(!(s.l.is_in_result() && cc.l.is_in_result()), "never both twins");
-        if k == 0 && s0 == c0 {
-            // A op A (identical operands: every edge is an equal-transition pair)
-            match op {
-                Operation::Intersection | Operation::Union => assert!(kept[0], "A op A keeps the boundary of A for intersection/union"),
-                _ => assert!(!kept[0], "A op A is empty for difference/xor"),
-            }
-        }
-        std::mem::forget((s, cc, pp, pp_r, far));
-        k += 1;
-    }
-    if op != Operation::Difference {
-        assert!(kept[0] == kept[1], "commutative operations keep a shared edge independently of which operand is subject");
-    }
-    kani::cover!(kept[0] && op == Operation::Difference, "difference keeps an opposite-transition pair");
-    kani::cover!(s0 == c0 && kept[0], "self-operation keeps");
-}
-
